@@ -18,6 +18,7 @@ pub struct Armed {
     pub countdown: u32,
     pub ops: Vec<Step>,
     pub drop_vector: bool,
+    pub as_tx: bool,
     pub vec: *mut Option<ObservableVector<Elem>>,
     pub env: Env,
     pub fired: bool,
@@ -72,13 +73,37 @@ fn run(a: &mut Armed) {
     let slot = unsafe { &mut *a.vec };
     let r = catch_unwind(AssertUnwindSafe(|| {
         if let Some(v) = slot.as_mut() {
-            for op in &a.ops {
-                let mut m = a.env.borrow().contents.clone();
-                if apply_plain(v, &mut m, op) {
+            if a.as_tx {
+                // one transaction, one message with all the diffs, one boundary state
+                let before = a.env.borrow().contents.clone();
+                let mut m = before.clone();
+                let mut tx = v.transaction();
+                let mut recorded = 0;
+                for op in &a.ops {
+                    if apply_plain(&mut tx, &mut m, op) {
+                        recorded += 1;
+                    }
+                }
+                tx.commit();
+                if recorded > 0 {
                     let mut w = a.env.borrow_mut();
+                    if m != before {
+                        let j = w.boundaries.len();
+                        w.commit_bidx.push(j);
+                    }
                     w.contents = m.clone();
                     w.boundaries.push(m);
                     a.applied += 1;
+                }
+            } else {
+                for op in &a.ops {
+                    let mut m = a.env.borrow().contents.clone();
+                    if apply_plain(v, &mut m, op) {
+                        let mut w = a.env.borrow_mut();
+                        w.contents = m.clone();
+                        w.boundaries.push(m);
+                        a.applied += 1;
+                    }
                 }
             }
         }
@@ -98,7 +123,7 @@ fn e(v: V) -> Elem {
 }
 
 /// One direct mutator, with the interpreter's index clamping. Returns whether the contents changed.
-pub fn apply_plain(t: &mut ObservableVector<Elem>, m: &mut Vec<V>, step: &Step) -> bool {
+pub fn apply_plain<T: super::exec::VecLike>(t: &mut T, m: &mut Vec<V>, step: &Step) -> bool {
     let len = m.len();
     match step {
         Step::PushBack(v) => {
